@@ -413,6 +413,18 @@ def polygon_case(rng, allow_tilt=True, kind=None, straight_frac=0.12, far_frac=0
             elif q == 3:
                 R = np.diag([1.0, -1.0, -1.0]) @ R
         t = random_unit(rng) * float(rng.choice([0, 0.5, 3.0])) * diameter(V)
+        if rng.random() < 0.12:
+            # a plane whose normal has two (or three) components of exactly equal size: x = y, x = -y, y = z, x = z, x + y + z = 0.
+            # The frame vectors repeat one number in two coordinates, so the tie survives rounding; the shift stays in the plane
+            # and keeps the tie too.  (Code that picks "the largest component of the normal" has to pick *one* here.)
+            a_ = math.sqrt(0.5)
+            frames = [((a_, a_, 0.0), (0.0, 0.0, 1.0)), ((a_, -a_, 0.0), (0.0, 0.0, -1.0)), ((0.0, a_, a_), (1.0, 0.0, 0.0)),
+                      ((a_, 0.0, a_), (0.0, -1.0, 0.0)), ((a_, -a_, 0.0), (math.sqrt(1 / 6), math.sqrt(1 / 6), -2 * math.sqrt(1 / 6)))]
+            e1_, e2_ = (np.array(v) for v in frames[int(rng.integers(len(frames)))])
+            R = np.column_stack((e1_, e2_, np.cross(e1_, e2_)))
+            t = (float(rng.uniform(-2, 2)) * e1_ + float(rng.uniform(-2, 2)) * e2_) * diameter(V) * float(rng.choice([0.0, 1.0]))
+            if e2_[2] in (1.0, -1.0) or e2_[0] == 1.0 or e2_[1] == -1.0:
+                t = t  # in-plane shifts along e1_ repeat one number in the two tied coordinates; along e2_ they touch the third only
         V = V @ R.T + t
         plane_n = R @ plane_n
     elif rng.random() < 0.7 and k != "lattice":
